@@ -684,6 +684,18 @@ package ast
 //@ func isBinaryOp [C11]
 //@   ensures result == isBinTok(tokenType)
 
+// ---- alternation chains (C14): x|y|z is x | (y | z), the right operand is a whole pattern ----
+// litEnd / patEnd: where the literal / the alternation chain that starts at an index ends.
+// A-DET: parse_regexp_literal is a function of the pattern text and the index (assumed).
+//@ specfunc litEnd(Str, Int) Int
+//@ specfunc patEnd(Str, Int) Int
+//@ axiom patEnd_def@ast.parse_regexp_pattern: forall s Str, i Int :: { patEnd(s, i) } patEnd(s, i) == ((litEnd(s, i) < len(s) && sat(s, litEnd(s, i)) == '|') ? patEnd(s, litEnd(s, i) + 1) : litEnd(s, i))
+//@ func parse_regexp_literal [C14]
+//@   assumes det: result.2 == nil ==> result.1 == litEnd(regexp, index) [C14]
+//@ func parse_regexp_pattern [C14]
+//@   ensures chain: result.2 == nil ==> result.1 == patEnd(regexp, index) [C14]
+//@   ensures alt: result.2 == nil && litEnd(regexp, index) < len(regexp) && sat(regexp, litEnd(regexp, index)) == '|' ==> result.0 is *AstBranch && (result.0 as *AstBranch) != nil && (result.0 as *AstBranch).Left is *AstSubExpr [C14]
+
 // ---- keyword recognition (C15): the token type of a word is a function of its lower-cased text ----
 // 52 keywords, read from the lexer's switch by tools/gen_keywords.py
 //@ pred kwOf(s Str) := (s == "find" ? FIND : (s == "replace" ? REPLACE : (s == "with" ? WITH : (s == "set" ? SET : (s == "to" ? TO : (s == "pattern" ? PATTERN : (s == "matches" ? MATCHES : (s == "transform" ? TRANSFORM : (s == "function" ? TRANSFORM : (s == "all" ? ALL : (s == "skip" ? SKIP : (s == "take" ? TAKE : (s == "top" ? TOP : (s == "last" ? LAST : (s == "any" ? ANY : (s == "whitespace" ? WHITESPACE : (s == "digit" ? DIGIT : (s == "upper" ? UPPER : (s == "lower" ? LOWER : (s == "letter" ? LETTER : (s == "line" ? LINE : (s == "file" ? FILE : (s == "word" ? WORD : (s == "start" ? START : (s == "end" ? END : (s == "begin" ? BEGIN : (s == "not" ? NOT : (s == "at" ? AT : (s == "least" ? LEAST : (s == "most" ? MOST : (s == "between" ? BETWEEN : (s == "and" ? AND : (s == "exactly" ? EXACTLY : (s == "maybe" ? MAYBE : (s == "fewest" ? FEWEST : (s == "named" ? NAMED : (s == "in" ? IN : (s == "or" ? OR : (s == "if" ? IF : (s == "then" ? THEN : (s == "else" ? ELSE : (s == "debug" ? DEBUG : (s == "return" ? RETURN : (s == "head" ? HEAD : (s == "tail" ? TAIL : (s == "loop" ? LOOP : (s == "continue" ? CONTINUE : (s == "break" ? BREAK : (s == "true" ? TRUE : (s == "false" ? FALSE : (s == "whole" ? WHOLE : (s == "caseless" ? CASELESS : IDENTIFIER))))))))))))))))))))))))))))))))))))))))))))))))))))
